@@ -356,6 +356,12 @@ func (im *Impl) Exec(line string) (out string) {
 		return im.rbCompare()
 	case "csnap":
 		return im.rbSnapshot(w[1])
+	case "killq":
+		off, n, tag := atoi(w[1]), atoi(w[2]), atoi(w[3])
+		if im.rep() == nil || off+n > im.nbUnits() {
+			return "inadmissible"
+		}
+		return im.rbKillQ(off, n, tag)
 	case "clone":
 		return im.clone(w[1], len(w) > 2 && w[2] == "late")
 	case "maxchain":
